@@ -27,6 +27,10 @@ def run(ctx):
     ctx.do(P.rule_p1)
     ctx.do(CA.rule_c2, "ProjectiveObject", scope=ctx.scope(ENTRIES))
     ctx.do(SH.rule_sh3)
+    ctx.do(SH.rule_sh7, only={
+        "Polygon.flatten_to_unit", "Polygon.reshape", "Polygon.astype",
+        "Polygon.__getitem__", "Polygon.get_edges", "Polygon.get_vertices",
+        "Polygon._compute_aux_data", "PointPair.get_endpoints"})
     ctx.do(SI.rule_s1c)
     ctx.do(SI.rule_gi1)
     ctx.do(u1, ENTRIES, min_functions=30)
